@@ -25,10 +25,31 @@ class PromiseCore : public std::conditional_t<Shared, SharedCore<V, E>, UniqueCo
   using Base = std::conditional_t<Shared, SharedCore<V, E>, UniqueCore<V, E>>;
 
   explicit PromiseCore(Func&& f) : F{std::forward<Func>(f)} {
+    this->_self = {};
   }
+
+  // Until Call this core is the head of a lazy chain (LazyContract): another step or coroutine starts it via Here/Next.
+  // After Call it's an ordinary promise core: Here/Next connect it to the caller's result
+  [[nodiscard]] InlineCore* Here(InlineCore& caller) noexcept final {
+    if (this->_self.caller == nullptr) {
+      this->_executor->Submit(*this);
+      return nullptr;
+    }
+    return Base::Here(caller);
+  }
+#if YACLIB_SYMMETRIC_TRANSFER != 0
+  [[nodiscard]] yaclib_std::coroutine_handle<> Next(InlineCore& caller) noexcept final {
+    if (this->_self.caller == nullptr) {
+      this->_executor->Submit(*this);
+      return yaclib_std::noop_coroutine();
+    }
+    return Base::Next(caller);
+  }
+#endif
 
  private:
   void Call() noexcept final {
+    this->_self.caller = this;
     PromiseT promise{CorePtrT{NoRefTag{}, this}};
     try {
       // We need to move func with capture on stack, because promise can be Set before func return
